@@ -218,7 +218,7 @@ type heldCase struct {
 
 var heldObjects = ev.Register(&ev.P[heldCase]{
 	Name: "held_objects_unchanged",
-	Rule: "objects obtained earlier (a LunarYear with its month list and term Julian days, a LunarMonth, a Lunar and a Solar) are digested, a generated history of calls for other years runs, and the same objects are digested again; oracle: equal digests (a later call must not write into what an earlier call returned); non-trivial: the history evicts the cached year at least twice",
+	Rule: "objects obtained earlier (a LunarYear with its month list and term Julian days, a LunarMonth, a Lunar and a Solar) are digested, a generated history of calls for other years runs, and the same objects are digested again; oracle: equal digests (a later call must not write into what an earlier call returned), and digesting the same objects again with the accessors in reverse order gives the same result (accessors are read-only); non-trivial: the history evicts the cached year at least twice",
 	Check: func(c heldCase) error {
 		calendar.VerifResetYearCache()
 		ly := calendar.NewLunarYear(c.Y)
@@ -227,6 +227,15 @@ var heldObjects = ev.Register(&ev.P[heldCase]{
 		s := l.GetSolar()
 		jq := append([]float64(nil), ly.GetJieQiJulianDays()...)
 		before := []string{digestString(dig.Of(ly, 1)), digestString(dig.Of(lm, 0)), digestString(dig.Of(l, 1)), digestString(dig.Of(s, 0))}
+		// read-only accessors: asking everything again in the opposite order changes nothing
+		dig.Reverse = true
+		rev := []string{digestString(dig.Of(ly, 1)), digestString(dig.Of(lm, 0)), digestString(dig.Of(l, 1)), digestString(dig.Of(s, 0))}
+		dig.Reverse = false
+		for i := range before {
+			if before[i] != rev[i] {
+				return fmt.Errorf("the %s for year %d answers differently when its accessors are called again in reverse order (an accessor changes the object)", []string{"LunarYear", "LunarMonth", "Lunar", "Solar"}[i], c.Y)
+			}
+		}
 		for _, h := range c.History {
 			run(h)
 		}
